@@ -16,6 +16,7 @@ FEATURES = [
     'derived_redecl', 'derived_new', 'inverse', 'multi_inherit', 'abstract', 'sexpr',
     'defined_aggr',          # TYPE ilist = LIST OF INTEGER
     'renamed_enum', 'number', 'binary', 'logical',
+    'required_entity_ref',      # a non-OPTIONAL attribute whose value must contain an entity reference
     'selmember_renamed_enum',   # entity that is a select member (or its ancestor) has an attribute of a renamed enumeration type
 ]
 
@@ -126,6 +127,12 @@ class Gen(object):
                 if e.name in members:
                     for a in e.attrs:
                         self._derename(s, a.type)
+        # ---- populations without reference cycles need schemas whose references can all be left out
+        if not self.ok('required_entity_ref'):
+            for e in ents:
+                for a in e.attrs:
+                    if self._mentions_entity(s, a.type):
+                        a.optional = True
         # ---- derived
         for e in ents:
             if e.supers and self.ok('derived_redecl') and rng.random() < .3:
@@ -150,6 +157,19 @@ class Gen(object):
                             tgt.inverse.append(Inverse('inv_%s' % a.name, e.name, a.name, 'SET', 0, None))
                             s.tags.add('inverse')
         return s
+
+    def _mentions_entity(self, s, t):
+        if t.kind == 'entity':
+            return True
+        if t.kind == 'aggr':
+            return self._mentions_entity(s, t.elem)
+        if t.kind == 'named':
+            td = s.type(t.name)
+            if td.kind == 'simple':
+                return self._mentions_entity(s, td.base)
+            if td.kind == 'select':
+                return any(k is None for k, _lt in s.select_leaves(td))
+        return False
 
     def _derename(self, s, t):
         if t.kind == 'named' and t.name == 'colour2':
